@@ -1,6 +1,7 @@
 package main
 
 import (
+	"os"
 	"fmt"
 	"go/token"
 	"go/types"
@@ -64,6 +65,12 @@ func (tr *Trans) ret(fr *Frame, x *ssa.Return) {
 			}
 			tr.cur.assert(te.E, tr.ob("globalinv", fmt.Sprint(i), x.Pos(), cl.Src, cl.Tags))
 		}
+	}
+	if tr.contract != nil && (len(tr.contract.Ensures) > 0 || len(tr.contract.AtReturn) > 0) {
+		// reachability of this return under everything assumed on the way (vacuity guard)
+		cov := tr.ob("cover", "return", x.Pos(), "this return is reachable under the assumptions made on the way", tr.eng.propsFor(tr.name, "cover"))
+		cov.Cover = true
+		tr.cur.assert("true", cov)
 	}
 	if tr.contract != nil {
 		for i, cl := range tr.contract.Ensures {
@@ -245,9 +252,13 @@ func (tr *Trans) call(fr *Frame, res ssa.Value, c *ssa.CallCommon, site ssa.Inst
 		return
 	}
 	tr.nonNil(tr.expr(fv), pos, "call of nil function value")
-	tr.note("call of unknown function value at %s: havoc of all heap components", tr.eng.fset.Position(pos))
-	tr.havocAll(pos)
-	tr.setResult(fr, res, tr.havocResults("fnval", sig))
+	// A caller-supplied callback (e.g. ResolveOptions.Loader): like any external callee it is assumed to write only
+	// through its pointer arguments (and its own state, which the package cannot observe); the objects this API
+	// call has allocated and not handed to it are out of its reach.
+	tr.atCall(fr, "fnval", args, pos)
+	tr.note("call of unknown function value at %s: default external frame (writes only through its arguments)", tr.eng.fset.Position(pos))
+	tr.eng.noteDefault("caller-supplied function value")
+	tr.setResult(fr, res, tr.opaqueCall("fnval", args, sig, pos))
 }
 
 func (tr *Trans) callFunc(fr *Frame, res ssa.Value, fn *ssa.Function, binds []*Val, args []*Val, sig *types.Signature, pos token.Pos) {
@@ -430,6 +441,18 @@ func (tr *Trans) paramNames(ct *Contract, fn *ssa.Function, n int) []string {
 
 func (tr *Trans) callScope(ct *Contract, fn *ssa.Function, args []*Val) *Scope {
 	sc := &Scope{vars: map[string]TExpr{}, eng: tr.eng, il: tr.il}
+	// references the translation already knows to be new / old (constants only): the callee's clauses then
+	// read the right heap directly instead of through an ite
+	sc.known = map[string]byte{}
+	for r := range tr.freshRefs {
+		sc.known[r] = 'N'
+	}
+	for r := range tr.knownNew {
+		sc.known[r] = 'N'
+	}
+	for r := range tr.knownOld {
+		sc.known[r] = 'O'
+	}
 	names := tr.paramNames(ct, fn, len(args))
 	for i, a := range args {
 		if i >= len(names) {
@@ -560,9 +583,22 @@ func (tr *Trans) applyContract(ct *Contract, fn *ssa.Function, args []*Val, sig 
 	for _, f := range ct.Fresh {
 		if te, ok := post.lookup(f); ok {
 			tr.cur.assume(fmt.Sprintf("(> %s %s)", refOf(te), allocBefore))
+			tr.forgetObject(te, allocBefore, pos)
 		}
 	}
 	for _, cl := range ct.Ensures {
+		// Objects the postcondition declares fresh did not exist before the call: whatever the caller's heap
+		// holds at those references is meaningless, so it is forgotten before the clause is assumed (otherwise a
+		// clause such as "result.Not != nil && fresh(result.Not)" would contradict the unwritten heap).
+		walk(cl.E, func(n Node) {
+			c, ok := n.(*NCall)
+			if !ok || c.Fn != "fresh" || len(c.Args) != 1 {
+				return
+			}
+			if te, err := post.elab(c.Args[0]); err == nil {
+				tr.forgetObject(te, allocBefore, pos)
+			}
+		})
 		te, err := post.elab(cl.E)
 		if err != nil {
 			tr.eng.fatal("%s:%d: ensures %q at call from %s: %v", ct.File, cl.Line, cl.Src, tr.name, err)
@@ -1069,6 +1105,50 @@ func (tr *Trans) atCall(fr *Frame, key string, args []*Val, pos token.Pos) {
 			props = ct.Tags
 		}
 		tr.cur.assert(te.E, tr.restrict(tr.ob("atcall", fmt.Sprintf("%s#%d[%s]", key, n, cl.Name), pos, cl.Src, props), cl))
+	}
+}
+
+// forgetObject havocs the heap cells of the object te refers to (all fields of a struct, the elements of a
+// slice, the entries of a map) if that object was allocated by the call, in the mutable heap only.
+func (tr *Trans) forgetObject(te TExpr, allocBefore string, pos token.Pos) {
+	if te.GoT == nil || os.Getenv("GOVC_NOFORGET") != "" {
+		return
+	}
+	ref := tr.freshConst("freshref", "Int")
+	var comps []string
+	switch u := te.GoT.Underlying().(type) {
+	case *types.Pointer:
+		if _, ok := u.Elem().Underlying().(*types.Struct); ok {
+			if tr.eng.isOpaque(u.Elem()) || !strings.HasPrefix(tr.sortOf(u.Elem()).Sort, "S_") {
+				return
+			}
+			comps = tr.eng.locComps(te, "*")
+		} else {
+			comps = tr.eng.locComps(te, "val")
+		}
+		tr.cur.assume(fmt.Sprintf("(= %s %s)", ref, te.E))
+	case *types.Map:
+		comps = tr.eng.locComps(te, "entries")
+		tr.cur.assume(fmt.Sprintf("(= %s %s)", ref, te.E))
+	case *types.Slice:
+		comps = tr.eng.locComps(te, "elems")
+		tr.cur.assume(fmt.Sprintf("(= %s (s_arr %s))", ref, te.E))
+	default:
+		return
+	}
+	for _, comp := range comps {
+		srt := tr.eng.compSort(comp)
+		if srt == "" {
+			continue
+		}
+		parts := splitSortArgs(srt)
+		hv := tr.heapVar(comp, srt)
+		fv := tr.freshConst("fresh_"+comp, parts[1])
+		if m, ok := tr.eng.sorts.compMeta[comp]; ok && m.Nest == "" && !m.Dom {
+			tr.typeFacts(&Val{K: VExpr, E: fv, T: m.T})
+		}
+		// only if the object really is new (the clause may mention fresh(x) under a disjunction)
+		tr.cur.assign(hv, fmt.Sprintf("(ite (> %s %s) (store %s %s %s) %s)", ref, allocBefore, cur(hv), ref, fv, cur(hv)))
 	}
 }
 
